@@ -1,4 +1,5 @@
 import Summer.Generated.Arith
+import Summer.Generated.Util
 import Summer.Props.C07Source
 /-
 C16 — the hand-written time-function model is what the SOURCE TEXT says.
@@ -6,13 +7,36 @@ C16 — the hand-written time-function model is what the SOURCE TEXT says.
 `Summer/Generated/Arith.lean` is regenerated from `/repo/summer2/functions/interpolate.py` and
 `/repo/summer2/functions/util.py` on every run (`harness/translate/gen_arith.py`).  The theorems below identify
 each regenerated definition with the definition of `Summer/Model/TimeFns.lean` that the C16 theorems are about
-(`bsearch`, `piecewise`, `linear`, `sigmoid_*`).  The binary search itself (`binary_search_sum_ge`, a
-`lax.while_loop`) is modelled by hand (`TimeFns.binarySearchSumGe`) and tied by the correspondence.
+(`bsearch`, `piecewise`, `linear`, `sigmoid_*`).  For the binary search itself (`binary_search_sum_ge`, a `lax.while_loop`)
+`Summer/Generated/Util.lean` carries the loop condition, the loop body, the initial state and the final selection as written in the
+source (`harness/translate/gen_rates.py`, section util.py); `bsLoop_unfold` shows that the hand model's loop satisfies the while-loop
+equation for exactly this condition and body, and `binary_search_sum_ge_eq` that the whole function is initial state → loop → selection.
 -/
 set_option linter.unusedSectionVars false
 
 namespace Summer.Props.C16Source
 open Summer Summer.TimeFns Summer.Generated Summer.Props.C07Source
+
+section bsearch
+variable {α : Type} [Zero α] [LT α] [DecidableLT α]
+
+/-- the hand model's loop is the `lax.while_loop` of the source's condition and body: it stops when the condition is false and
+otherwise continues from the body's result -/
+theorem bsLoop_unfold (x : α) (pts : List α) (low high : Int) :
+    bsLoop x pts low high =
+      if Util.bs_cond low high then bsLoop x pts (Util.bs_body x pts low high).1 (Util.bs_body x pts low high).2
+      else (low, high) := by
+  rw [bsLoop]
+  simp only [Util.bs_cond, Util.bs_body, decide_eq_true_eq]
+  split <;> rfl
+
+/-- `binary_search_sum_ge` = initial state, loop, final selection -/
+theorem binary_search_sum_ge_eq (x : α) (pts : List α) :
+    binarySearchSumGe x pts =
+      Util.bs_result x pts (bsLoop x pts (Util.bs_init pts).1 (Util.bs_init pts).2).1
+        (bsLoop x pts (Util.bs_init pts).1 (Util.bs_init pts).2).2 := rfl
+
+end bsearch
 
 section
 variable {α : Type} [Field α] [LinearOrder α] [IsStrictOrderedRing α]
@@ -79,6 +103,8 @@ example : Arith.interpolate_linear (5 : Rat) (Arith.scale_data [0, 1, 2]) (Arith
 
 end Summer.Props.C16Source
 
+#print axioms Summer.Props.C16Source.bsLoop_unfold
+#print axioms Summer.Props.C16Source.binary_search_sum_ge_eq
 #print axioms Summer.Props.C16Source.linear_curve_eq
 #print axioms Summer.Props.C16Source.sigmoidal_curve_eq
 #print axioms Summer.Props.C16Source.interpolate_linear_eq
